@@ -31,7 +31,7 @@ Theorem C11_model_sites_listed : forall s, In s Handlers.model_sites ->
 Proof. exact model_sites_listed. Qed.
 
 (* (2) the property fails on the model as it fails on the code: one witness per listed message-level input
-   (connection 2; key numbers 3 and 13) *)
+   (connection 2; key number 3) *)
 Theorem C11_no_panic_refuted_block_tag :
   exists st', run (init false false true) [(0, 2, EConn); (0, 2, ENet (Some MBlock))] = Panic site_block_tag st'.
 Proof. eexists. vm_compute. reflexivity. Qed.
@@ -50,16 +50,19 @@ Theorem C11_no_panic_refuted_golden_ticket :
     [(0, 2, EConn); (1, 2, ENet (Some (MResponse true true 3))); (2, 2, ENet (Some (MTx 2 0 true)))] = Panic site_gt_len st'.
 Proof. eexists. vm_compute. reflexivity. Qed.
 
-Theorem C11_no_panic_refuted_key_change :
+(* a valid handshake response under ANOTHER key on an entry that has a key used to be a sixth witness (assert_eq!
+   in Peer::handle_handshake_response, finding assert-key-changed-panic of C17); since fix ae2aeaa the response is
+   rejected and the sender disconnected -- the model follows the repaired code *)
+Example C11_key_change_is_rejected :
   exists st', run (init false false true)
     [(0, 2, EConn); (1, 2, ENet (Some (MResponse true true 3))); (2, 2, ENet (Some MChallenge));
-     (3, 2, ENet (Some (MResponse true true 13)))] = Panic site_key_changed st'.
-Proof. eexists. vm_compute. reflexivity. Qed.
+     (3, 2, ENet (Some (MResponse true true 13)))] = Done st'
+  /\ snd (step (fst (step (fst (step (fst (step (init false false true) 0 2 EConn)) 1 2 (ENet (Some (MResponse true true 3))))) 2 2 (ENet (Some MChallenge)))) 3 2 (ENet (Some (MResponse true true 13)))) = ODisconnect.
+Proof. eexists. split; vm_compute; reflexivity. Qed.
 
 (* positive theorem: a sequence none of whose inputs is a listed crash input (Block tag; ghost-chain request from
    an entry without key, or with id u64::MAX in a build with overflow checks; the key list that exceeds the
-   quota; a verified golden-ticket transaction whose payload is not 97 bytes; a valid handshake response under
-   another key on an entry that has a key) never panics -- every other tag, undecodable buffers, unknown
+   quota; a verified golden-ticket transaction whose payload is not 97 bytes) never panics -- every other tag, undecodable buffers, unknown
    connections, any order, any time stamps, before or after the handshake *)
 Theorem C11_dispatch_safe : forall st msgs,
   ~ Known_C11 st msgs -> forall site st', run st msgs <> Panic site st'.
@@ -111,7 +114,6 @@ Print Assumptions C11_no_panic_refuted_block_tag.
 Print Assumptions C11_no_panic_refuted_ghost_request.
 Print Assumptions C11_no_panic_refuted_key_list.
 Print Assumptions C11_no_panic_refuted_golden_ticket.
-Print Assumptions C11_no_panic_refuted_key_change.
 Print Assumptions C11_dispatch_safe.
 Print Assumptions C11_known_inputs_panic.
 Print Assumptions C11_frame.
